@@ -28,6 +28,9 @@ type vcSeq struct {
 	C *OctetString `aper:"sizeLB:1,sizeUB:4,optional"`
 	D bool
 	E Enumerated `aper:"valueLB:0,valueUB:2"`
+	G Enumerated `aper:"valueExt,valueLB:0,valueUB:0"` // ENUMERATED { only, ... }: the extension bit and nothing else
+	F BitString  `aper:"sizeLB:22,sizeUB:32"`
+	H int64      `aper:"valueLB:0,valueUB:255"`
 }
 
 func vcRefInner(w *per.W, v vcInner) { w.ConstrainedWholeNumber(0, 255, v.X) }
@@ -59,6 +62,21 @@ func vcRefSeq(w *per.W, v vcSeq, ext bool) {
 		w.PutBit(0)
 	}
 	w.ConstrainedWholeNumber(0, 2, int64(v.E))
+	w.PutBit(0)
+	w.BitString(v.F.Bytes, int(v.F.BitLength), true, 22, 32, false)
+	w.ConstrainedWholeNumber(0, 255, v.H)
+}
+
+// vcBits is a BIT STRING of n bits with a recognisable pattern (padding bits zero).
+func vcBits(n int) BitString {
+	b := make([]byte, (n+7)/8)
+	for i := range b {
+		b[i] = byte(0xC3 ^ i*29)
+	}
+	if r := n % 8; r != 0 {
+		b[len(b)-1] &= 0xff << uint(8-r)
+	}
+	return BitString{Bytes: b, BitLength: uint64(n)}
 }
 
 // SEQUENCE (SIZE (lb..ub [, ...])) OF Inner, under the size constraints NGAP uses
@@ -220,7 +238,7 @@ func vcItems(n int) []vcInner {
 }
 
 // prop: C03 C04
-// bound: synthetic types, one per construct of the traversal: an extensible SEQUENCE with two OPTIONAL components (all 4 presence patterns x boundary field values, as a top-level type and nested), SEQUENCE OF under the size constraints (1..16), (1..256), (0..255), (1..65535), (1..65536), (2..2), (1..4, ...) with 0/1/2/3/4/5/16/127/128/129/255/256/300 elements where legal, a PrintableString (SIZE (1..150, ...)) behind a wrapper type that repeats the size constraint (absent, 1, 12, 150 characters), a CHOICE of three alternatives (plain and extensible), an information object field with an open type of three kinds of values incl. contents of 0, 1, 127, 128 and 300 octets; each encoded by Marshal and compared with a hand-assembled X.691 reference, then decoded by Unmarshal and compared with the input
+// bound: synthetic types, one per construct of the traversal: an extensible SEQUENCE with two OPTIONAL components, a single-valued extensible ENUMERATED and a BIT STRING (SIZE (22..32)) followed by further components (all 4 presence patterns x boundary field values x bit string lengths 22..32, as a top-level type and nested), SEQUENCE OF under the size constraints (1..16), (1..256), (0..255), (1..65535), (1..65536), (2..2), (1..4, ...) with 0/1/2/3/4/5/16/127/128/129/255/256/300 elements where legal, a PrintableString (SIZE (1..150, ...)) behind a wrapper type that repeats the size constraint (absent, 1, 12, 150 characters), a CHOICE of three alternatives (plain and extensible), an information object field with an open type of three kinds of values incl. contents of 0, 1, 127, 128 and 300 octets; each encoded by Marshal and compared with a hand-assembled X.691 reference, then decoded by Unmarshal and compared with the input
 func vcBounded_traversal() {
 	oct := func(n int) *OctetString {
 		o := OctetString(bytes.Repeat([]byte{0xA5}, n))
@@ -238,7 +256,7 @@ func vcBounded_traversal() {
 		for pat := 0; pat < 4; pat++ {
 			for _, a := range []int64{0, 5, 7} {
 				for _, cl := range []int{1, 2, 3, 4} {
-					v := vcSeq{A: a, D: pat%2 == 0, E: Enumerated(a % 3)}
+					v := vcSeq{A: a, D: pat%2 == 0, E: Enumerated(a % 3), F: vcBits(22 + (int(a)+cl)%11), H: 17 * a}
 					if pat&1 != 0 {
 						v.B = &vcInner{X: 200 + a}
 					}
@@ -323,7 +341,7 @@ func vcBounded_traversal() {
 		}
 		for _, v := range []vcChoice{
 			{Present: 1, A: &vcInner{X: 0}}, {Present: 1, A: &vcInner{X: 255}},
-			{Present: 2, B: &vcSeq{A: 3, D: true, E: 2, C: oct(2)}}, {Present: 2, B: &vcSeq{A: 7, B: &vcInner{X: 9}}},
+			{Present: 2, B: &vcSeq{A: 3, D: true, E: 2, C: oct(2), F: vcBits(24), H: 1}}, {Present: 2, B: &vcSeq{A: 7, B: &vcInner{X: 9}, F: vcBits(32), H: 255}},
 			{Present: 3, C: oct(3)},
 		} {
 			w := &per.W{}
@@ -348,7 +366,7 @@ func vcBounded_traversal() {
 	}
 	for _, v := range []vcIE{
 		{Id: vcID{10}, Crit: 0, Value: vcValue{Present: 1, A: &vcInner{X: 77}}},
-		{Id: vcID{121}, Crit: 2, Value: vcValue{Present: 3, C: &vcSeq{A: 1, B: &vcInner{X: 3}, C: oct(4), D: true, E: 1}}},
+		{Id: vcID{121}, Crit: 2, Value: vcValue{Present: 3, C: &vcSeq{A: 1, B: &vcInner{X: 3}, C: oct(4), D: true, E: 1, F: vcBits(25), H: 200}}},
 	} {
 		w := &per.W{}
 		vcRefIE(w, v)
